@@ -243,6 +243,8 @@ func (g *g) dq() string {
 	sb.WriteString("\"")
 	for k := g.r.Intn(4); k > 0; k-- {
 		sb.WriteString(g.pick("a", "é", " ", "\\n", "\\t", "\\\\", "\\\"", "\\e", "\\a", "\\x41", "\\xff", "\\u00e9", "\\u4e16", "\\U0001F600", "\\U00110000",
+			// valid code points whose first seven hex digits spell a surrogate
+			"\\U000D8000", "\\U000DBFFF", "\\U000DC000", "\\U000DFFFF", "\\U0010FFFF", "\\uFFFF",
 			"\\UFFFFFFFF", "\\uD800", "\\c?", "\\cA", "\\^[", "\\c_", "\\101", "\\377", "\\000", "\\141", "'", "$", "\n", "世", "#", "^\n", "😀", "\\^@", "\\c\\"))
 	}
 	if g.bad && g.r.Chance(1, 6) {
